@@ -101,6 +101,19 @@ def with_rejected_interludes(prop, defs, scen):
                                   U.field(9, "default", U.ST("ZBadInner", True))])
     defs["ZBadInner"]["invalid"] = True
     defs["ZBadShare"]["invalid"] = True
+    # decodes of holder types that fail after unknown fields were met (truncated messages), then full round trips of
+    # OTHER holder values: what the failed call recorded must not show up
+    fh = []
+    for hs in [x for x in sorted(defs) if defs[x].get("unk") and not defs[x].get("invalid")]:
+        b1 = U.base_value({"k": "struct", "ptr": False, "s": hs}, defs, 2, 1)
+        v1 = {"f": b1["f"], "unk": U.unknown_bytes([1, 3, 8])}
+        v2 = {"f": b1["f"], "unk": U.unknown_bytes([0])}
+        fh.append({"sid": "%s-failed-holder-%s" % (prop, hs), "prop": prop, "vals": [v1, v2], "tags": ["failed-holder-decode"], "dkey": "failed-holder-" + hs,
+                   "steps": [{"op": "encode", "ty": hs, "v": 0, "buf": {"mode": "rel", "n": 0, "extra": 0}},
+                             {"op": "decode", "ty": hs, "from": 0, "cut": 1, "dest": "fresh"}, {"op": "decode", "ty": hs, "from": 0, "cut": 3, "dest": "fresh"},
+                             {"op": "encode", "ty": hs, "v": 1, "buf": {"mode": "rel", "n": 0, "extra": 0}},
+                             {"op": "decode", "ty": hs, "from": 3, "dest": "fresh", "orig": 1},
+                             {"op": "decode", "ty": hs, "from": 0, "dest": "fresh", "orig": 0}]})
     rej = {"sid": "%s-rejected-interlude" % prop, "prop": prop, "vals": [], "tags": [], "dkey": "rejected-interlude",
            "steps": [{"op": "reject", "ty": "ZBadShare", "entry": e, "arg": "ptr", "class": "interlude", "repeat": 1} for e in ("encode", "decode", "size")]}
     again = []
@@ -111,7 +124,7 @@ def with_rejected_interludes(prop, defs, scen):
             c["dkey"] = c["sid"]
             again.append(c)
     half = len(scen) // 2
-    return scen[:half] + [rej] + again + scen[half:] + [dict(rej, sid=rej["sid"] + "-2")] + [dict(a, sid=a["sid"] + "2", dkey=a["sid"] + "2") for a in again]
+    return fh + scen[:half] + [rej] + again + scen[half:] + [dict(rej, sid=rej["sid"] + "-2")] + [dict(a, sid=a["sid"] + "2", dkey=a["sid"] + "2") for a in again]
 
 
 def random_cases(prop, defs, tier, rng, n):
